@@ -396,7 +396,7 @@ def r07d(P, R):
     # a greedy repetition whose items can begin with an arbitrary name swallows any keyword that may legitimately come right after it
     # (PEG never backtracks into a repetition): every keyword in the FOLLOW set of the repetition must be excluded by a look-ahead of
     # the item — `(!from ~ Name)+ ~ from`, a name list at the end of a definition vs. the keyword that starts the next definition
-    nrep = 0
+    nrep, per_rule = 0, {}
     for rn, node, fw in g.repetition_follows():
         if node[0] not in ("star", "plus") or not fw:
             continue
@@ -404,8 +404,9 @@ def r07d(P, R):
         if not guards:
             continue
         nrep += 1
+        per_rule[rn] = per_rule.get(rn, 0) + 1
         missing = sorted(set().union(*[fw - k for k in guards]))
-        R.check("R07-d", "name-repetition-follow:%s#%d" % (rn, sum(1 for _ in [x for x in _walk(body(rn)) if x is node]) and nrep), not missing,
+        R.check("R07-d", "name-repetition-follow:%s#%d" % (rn, per_rule[rn] - 1), not missing,
                 "the names repeated in %s stop before %s" % (rn, sorted(fw)),
                 "the repetition of names in %s can be followed by the keyword(s) %s, which its items do not exclude: the keyword is consumed as one "
                 "more name, so a valid text in which it follows (e.g. the next definition starting with it) is rejected or absorbed into this "
